@@ -1590,3 +1590,25 @@ Example C04_gen_sub_example :
 Proof. vm_compute. first [exact I | split; reflexivity]. Qed.
 
 End GenAgreeSubtotals_C04.
+
+(* ---- WIRING-APPENDIX:BEGIN (generated by tools/gen_wiring_props.py; do not edit) ---- *)
+From CC Require Proofs.GenAgreeWiring_C04.
+Section Wiring_C04.
+Import Coq.Lists.List Coq.ZArith.ZArith Coq.Strings.String CC.Base.WiringExp CC.Gen.WiringSrc.
+Import ListNotations.
+Local Open Scope string_scope.
+
+Theorem C04_wiring_Slice__assemble_vector :
+  wsrc_Slice__assemble_vector = Some (WCall (WGlobal "__defaults__") [WIndex (WCall (WAttr (WGlobal
+      "np") "hstack") [WList [WVar "base_vector"; WCall (WAttr (WGlobal "np") "array") [WComp "list"
+      (WIf (WBoolOp "and" [WVar "diffs_nan"; WCmp ">" (WCall (WGlobal "len") [WAttr (WVar
+      "subtotal") "subtrahend_idxs"] []) (WInt (0)%Z)]) (WNaN) (WBin "-" (WCall (WAttr (WGlobal
+      "np") "sum") [WIndex (WVar "base_vector") [WAttr (WVar "subtotal") "addend_idxs"]] []) (WCall
+      (WAttr (WGlobal "np") "sum") [WIndex (WVar "base_vector") [WAttr (WVar "subtotal")
+      "subtrahend_idxs"]] []))) [(["subtotal"], WVar "subtotals", [])]] []]] []) [WVar "order"]]
+      [("diffs_nan", WFalse)]).
+Proof. exact Proofs.GenAgreeWiring_C04.gen_wiring_Slice__assemble_vector. Qed.
+Print Assumptions C04_wiring_Slice__assemble_vector.
+
+End Wiring_C04.
+(* ---- WIRING-APPENDIX:END ---- *)
